@@ -709,8 +709,6 @@ package server
 //@   preserves Store.deletedDatasets, Store.nextDatasetID, map[uint32]bool, DsManager.*
 //@ assumed (*DsManager).NewDatasetEntity
 //@   pure
-//@ assumed (*Store).GetEntity
-//@   preserves Store.deletedDatasets, map[uint32]bool, DsManager.*, Dataset.*
 //@ assumed (*bus.EventBus).UnregisterTopic
 //@   pure
 //@ assumed (server.EventBus).UnregisterTopic
@@ -1152,8 +1150,6 @@ package server
 //@   ensures [reports-the-sync-flag] result == ds.fullSyncStarted
 //@   modifies none
 
-//@ assumed (*Dataset).MapEntities
-//@   preserves Dataset.fullSyncStarted, Dataset.fullSyncSeen, Dataset.fullSyncID, Dataset.fullSyncLease, Dataset.store, map[uint64]int
 // within one callback the context's error does not flip back to nil between two reads
 //@ spec ctxErr(c iface) iface
 //@ assumed (context.Context).Err
@@ -1489,3 +1485,79 @@ package server
 //@   requires [callers-hold-no-lock-at-or-above-the-namespace-lock] forall l int :: has($held, l) ==> lockLevel(l) < 5
 //@   at call GetManyRelatedEntitiesBatch#1 before
 //@     assert [C03:an-unpaged-query-asks-for-everything-about-the-requested-start-points] $arg1 == startPoints && $arg2 == predicate && $arg3 == inverse && $arg4 == datasets && $arg5 == 0 && $arg6 == mergePartials
+
+// ---------------------------------------------------------------------------
+// C01 / C02: the decoding wrappers around the raw listing and the raw change feed pass position, limit and mode through
+// unchanged, hand back the raw function's token, decode every payload they are given and hand exactly that entity on
+//@ unit (*Dataset).ProcessChanges
+//@   prop C02
+//@   requires ds != nil && ds.store != nil && since >= 0
+//@   dyncall processChangedEntity pure
+//@   at call ProcessChangesRaw#1 before
+//@     assert [C02:position-limit-and-mode-passed-to-the-raw-feed] $arg0 == ds && $arg1 == since && $arg2 == count && $arg3 == latestOnly
+//@ unit (*Dataset).ProcessChanges$1
+//@   prop C02
+//@   ghost decodedG *Entity = nil
+//@   ensures [C02:a-payload-that-does-not-decode-stops-the-feed-with-its-error] !handedOnG ==> result != nil
+//@   ghost handedOnG bool = false
+//@   dyncall processChangedEntity pure
+//@   at call Unmarshal#1 before
+//@     assert [C02:every-change-payload-is-decoded] $arg0 == jsonData
+//@     ghost decodedG := entity
+//@   at call processChangedEntity#1 before
+//@     assert [C02:the-decoded-change-is-handed-on] $arg0 == decodedG && decodedG != nil
+//@     ghost handedOnG := true
+//@ unit (*Dataset).MapEntities
+//@   prop C01
+//@   frame-assumed preserves Dataset.fullSyncStarted, Dataset.fullSyncSeen, Dataset.fullSyncID, Dataset.fullSyncLease, Dataset.store, map[uint64]int
+//@   requires ds != nil && ds.store != nil
+//@   requires [token-came-from-an-earlier-page-of-this-dataset] from != "" ==> tokOK(from) && tokLen(from) == 14 && tokCl(from) == 8 && tokDs(from) == ds.InternalID
+//@   dyncall processEntity pure
+//@   ensures [C01:token-of-the-raw-listing-is-handed-back] ret1 == nil ==> ret0 == rawTokG
+//@   ghost rawTokG string = ""
+//@   at call MapEntitiesRaw#1 before
+//@     assert [C01:position-and-page-size-passed-to-the-raw-listing] $arg0 == ds && $arg1 == from && $arg2 == count
+//@   at call MapEntitiesRaw#1
+//@     ghost rawTokG := $result0
+//@ unit (*Dataset).MapEntities$1
+//@   prop C01
+//@   ghost decodedG *Entity = nil
+//@   ghost cbErrG iface
+//@   ghost handedOnG bool = false
+//@   dyncall processEntity pure
+//@   ensures [C01:the-consumers-verdict-is-returned] handedOnG ==> result == cbErrG
+//@   ensures [C01:a-payload-that-does-not-decode-stops-the-listing-with-its-error] !handedOnG ==> result != nil
+//@   at call Unmarshal#1 before
+//@     assert [C01:every-listed-payload-is-decoded] $arg0 == entityJson
+//@     ghost decodedG := e
+//@   at call processEntity#1 before
+//@     assert [C01:the-decoded-entity-is-handed-on] $arg0 == decodedG && decodedG != nil
+//@     ghost handedOnG := true
+//@   at call processEntity#1
+//@     ghost cbErrG := $result
+
+// a lookup by identifier: the identifier is compacted, resolved to its internal id, and looked up at the present instant
+// in the requested scope
+//@ unit (*Store).GetEntity
+//@   prop C01
+//@   frame-assumed preserves Store.deletedDatasets, map[uint32]bool, DsManager.*, Dataset.*
+//@   ghost idG int = 0
+//@   ghost scopeG slice
+//@   requires s != nil && s.database != nil && s.NamespaceManager != nil && !has($held, addrOf(s.NamespaceManager.lock))
+//@   requires [callers-hold-no-lock-at-or-above-the-namespace-lock] forall l int :: has($held, l) ==> lockLevel(l) < 5
+//@   at call getIDForURI#1
+//@     ghost idG := $result0
+//@   at call DatasetsToInternalIDs#1 before
+//@     assert [C01:scope-resolved-from-the-requested-dataset-names] $arg1 == datasets
+//@   at call DatasetsToInternalIDs#1
+//@     ghost scopeG := $result
+//@   at call GetEntityWithInternalID#1 before
+//@     assert [C01:the-entity-with-the-resolved-id-is-looked-up-in-the-requested-scope] $arg1 == idG && $arg2 == scopeG && $arg3 == mergePartials
+//@ unit (*Store).GetEntityWithInternalID
+//@   prop C01 C06
+//@   ghost nowG int = 0
+//@   requires s != nil
+//@   at call UnixNano#1
+//@     ghost nowG := $result
+//@   at call GetEntityAtPointInTimeWithInternalID#1 before
+//@     assert [C01,C06:a-present-time-lookup-is-the-point-in-time-lookup-at-now] $arg1 == internalID && $arg2 == nowG && $arg3 == targetDatasetIds && $arg4 == mergePartials
